@@ -51,7 +51,16 @@ def run(ctx):
     asts = sorted(set(asts))
     cfgs = [(0, 0, 0), (0, 1, 0), (1, 0, 0), (0, 1, 1)]
     ev, nt, mism = corr.search_den(asts, cfgs, maxlen=4, hidden='none')
-    mism = dmism + mism
+    # ranges whose end points differ in case (the punctuation between `Z` and `a` lies inside), on names made of the end
+    # points and that punctuation - case-insensitively too: `[A-z]` contains `_`, `[Z-a]` is a valid range
+    rasts = []
+    for neg in (0, 1):
+        for lo, hi in ((0x41, 0x7a), (0x5a, 0x61), (0x41, 0x61), (0x5f, 0x62), (0x58, 0x60), (0x30, 0x41)):
+            rasts.append('b%d[r%x-%x]' % (neg, lo, hi))
+            rasts.append('l78.b%d[r%x-%x].s' % (neg, lo, hi))
+    ev2, nt2, mism2 = corr.search_den(rasts, [(0, 1, 0), (1, 1, 0), (1, 0, 0)], maxlen=2, extra='_^x')
+    ev, nt = ev + ev2, nt + nt2
+    mism = dmism + mism + mism2
     hits, rest = common.attribute(
         ctx, mism, classifiers(),
         lambda m: 'fnmatch %s(%r, %r, %s) = %r but the documented language says %s' % (
